@@ -1,5 +1,6 @@
 // C15: bounded stack and heap against a hostile, stalling peer.  DESIGN 5.5
 #include "engine.h"
+#include "bulk.h"
 #include "walker.h"
 #include "transport.h"
 #include "ber.h"
@@ -159,13 +160,16 @@ static void c15_init(bool) {
 
 // ---------------------------------------------------------------- stack runs in a thread we own
 struct StackJob {
-    asn_TYPE_descriptor_t *td; Syntax sy; const Bytes *S; long limit; size_t chunk;
+    asn_TYPE_descriptor_t *td; Syntax sy; const Bytes *S; long limit; size_t chunk; int place = 0;   // where the caller keeps its context: 0 stack, 1 static, 2 heap
     int code; size_t consumed; bool aborted; size_t calls;
 };
 static void *stack_thread(void *arg) {
     StackJob *j = (StackJob *)arg;
     sim_install_altstack();
-    asn_codec_ctx_t ctx;              // MUST live on this stack: the guard measures distances from its address
+    // The guard measures distances from the address of a context; the public entry points copy a caller-supplied context
+    // onto their own stack first, so a caller may keep its own anywhere (converter-example.c keeps it in static storage).
+    asn_codec_ctx_t ctx_stack; static asn_codec_ctx_t ctx_static; asn_codec_ctx_t *ctx_heap = (asn_codec_ctx_t *)malloc(sizeof(asn_codec_ctx_t));
+    asn_codec_ctx_t &ctx = j->place == 1 ? ctx_static : j->place == 2 ? *ctx_heap : ctx_stack;
     memset(&ctx, 0, sizeof ctx);
     ctx.max_stack_size = j->limit > 0 ? (size_t)j->limit : 0;
     const asn_codec_ctx_t *pctx = j->limit > 0 ? &ctx : nullptr;
@@ -186,6 +190,7 @@ static void *stack_thread(void *arg) {
     // free without recursion limits of our own: ASN_STRUCT_FREE recurses too, but that is the caller's structure, built
     // only as deep as the decoder allowed
     if(st) free_struct(j->td, st);
+    free(ctx_heap);
     return nullptr;
 }
 
@@ -212,12 +217,12 @@ static size_t run_on_stack(StackJob &job) {
 struct Verdict { bool violated = false; std::string cls, site, detail; };
 static std::string mk_sig(const Verdict &v) { return "C15/" + v.cls + "/" + v.site; }
 
-static Verdict do_stack(const Tmpl &t, size_t depth, long limit, size_t chunk, size_t *hw_out, int *code_out) {
+static Verdict do_stack(const Tmpl &t, size_t depth, long limit, size_t chunk, size_t *hw_out, int *code_out, int place = 0) {
     Verdict v;
     asn_TYPE_descriptor_t *td = pdu_by_name(t.type);
     Bytes S = t.gen(depth);
     sim_alloc_reset();
-    StackJob job; job.td = td; job.sy = t.sy; job.S = &S; job.limit = limit; job.chunk = chunk;
+    StackJob job; job.td = td; job.sy = t.sy; job.S = &S; job.limit = limit; job.chunk = chunk; job.place = place;
     size_t hw = run_on_stack(job);
     EV.ev("stack %s depth=%zu limit=%ld chunk=%zu -> %s consumed=%zu calls=%zu", t.name, depth, limit, chunk, job.aborted ? "ABORT" : rc_name(job.code), job.consumed, job.calls);
     if(hw_out) *hw_out = hw;
@@ -310,21 +315,6 @@ static Bytes hostile(const Bytes &E, Syntax sy, Rng &r, std::string &how) {
 // (>= 4x the largest ratio measured on the pinned tree, SIM_C15_CALIBRATE=1) instead of the 1024 that one-bit elements need.
 // This is what exposes super-linear growth policies (a buffer that is re-grown geometrically per fragment).
 static const long HEAP_A_BULK = 24;
-struct Bulk { const char *name; const char *type; const char *decode_as; std::string (*xer)(size_t k); };
-static std::string hexrun(size_t k) { return std::string(2 * k, 'A'); }
-static const Bulk BULKS[] = {
-    {"bigstr", "BigStr", "BigStr", [](size_t k) { return "<BigStr>" + hexrun(k) + "</BigStr>"; }},
-    {"bigbits", "BigBits", "BigBits", [](size_t k) { return "<BigBits>" + std::string(8 * k, '1') + "</BigBits>"; }},
-    {"bigutf", "BigUtf", "BigUtf", [](size_t k) { return "<BigUtf>" + std::string(k, 'x') + "</BigUtf>"; }},
-    {"unilong", "UniLong", "UniLong", [](size_t k) { return "<UniLong>" + std::string(k / 4, 'x') + "</UniLong>"; }},
-    {"bmplong", "BmpLong", "BmpLong", [](size_t k) { return "<BmpLong>" + std::string(k / 2, 'x') + "</BmpLong>"; }},
-    {"blob.root", "Blob", "Blob", [](size_t k) { return "<Blob><a>" + hexrun(k) + "</a><c></c></Blob>"; }},
-    {"blob.addition", "Blob", "Blob", [](size_t k) { return "<Blob><a>00</a><c></c><d>" + std::string(k, 'x') + "</d></Blob>"; }},
-    {"blob.addition-skipped", "Blob", "BlobV1", [](size_t k) { return "<Blob><a>00</a><c></c><d>" + std::string(k - k % 3, 'x') + "</d></Blob>"; }},
-    {"extch.addition", "ExtCh", "ExtCh", [](size_t k) { return "<ExtCh><b>" + hexrun(k) + "</b></ExtCh>"; }},
-    {"octrange", "OctRange", "OctRange", [](size_t k) { return "<OctRange>" + hexrun(k < 70000 ? k : 70000) + "</OctRange>"; }},
-};
-static const int NBULK = sizeof(BULKS) / sizeof(BULKS[0]);
 static const size_t BULK_SIZES[] = {40000, 140000, 400000};
 // builds the input; returns false when this program / syntax cannot produce it
 static bool bulk_input(const Bulk &b, size_t k, Syntax sy, Bytes &S) {
@@ -355,24 +345,25 @@ static Verdict do_bulk(const Bulk &b, size_t k, Syntax sy, size_t chunk, HeapOut
 static std::string ops_str(const std::vector<Op> &ops) { std::string s; for(auto &o : ops) s += o.str(); return s; }
 
 static const size_t DEPTHS[] = {10, 100, 1000, 10000, 100000};
-static const long LIMITS[] = {-1 /* default (ctx NULL) */, 1000, 30000, 1000000};
+static const long LIMITS[] = {-1 /* default (ctx NULL) */, 1000, 30000, 1000000, 16};
 
 static void c15_run(uint64_t seed, uint64_t index, bool thorough) {
     bool calibrate = getenv("SIM_C15_CALIBRATE") != nullptr;
     Rng r = stream(seed, "faults"), rs = stream(seed, "schedule");
     // ---- stack runs: enumerate templates x depths x limits over the first indices, then sample chunked deliveries
-    size_t grid = g_valid.size() * 5 * 4;
+    size_t grid = g_valid.size() * 5 * 5;
     if(!calibrate && !g_valid.empty() && (index < grid || index % 4 == 0)) {
         size_t gi = index < grid ? (size_t)index : (size_t)r.below(grid);
-        const Tmpl &t = *g_valid[gi / 20];
-        size_t depth = DEPTHS[(gi / 4) % 5];
-        long limit = LIMITS[gi % 4];
+        const Tmpl &t = *g_valid[gi / 25];
+        size_t depth = DEPTHS[(gi / 5) % 5];
+        long limit = LIMITS[gi % 5];
+        int place = (int)((gi / 5 + gi) % 3);
         size_t chunk = index < grid ? 0 : (size_t)(1 + rs.below(8192));
         Plan head; head.set("property", "C15"); head.set("program", SIM_PROGRAM); head.set("mode", "stack"); head.set("template", t.name);
-        head.set("depth", L((long)depth)); head.set("limit", limit < 0 ? "default" : L(limit)); head.set("chunk", L((long)chunk));
+        head.set("depth", L((long)depth)); head.set("limit", limit < 0 ? "default" : L(limit)); head.set("chunk", L((long)chunk)); head.set("ctx", place == 1 ? "static" : place == 2 ? "heap" : "stack");
         status_head(head.head_str()); status_ops("op deliver rest\n");
         size_t hw = 0; int code = 0;
-        Verdict v = do_stack(t, depth, limit, chunk, &hw, &code);
+        Verdict v = do_stack(t, depth, limit, chunk, &hw, &code, place);
         G.add("c15.decodes"); G.add("c15.stack_runs"); G.add(std::string("c15.stack.rc.") + rc_name(code));
         G.max("c15.stack_high_water_bytes", hw);
         if(depth >= 10000) G.add("c15.fired.deep_nesting");
@@ -384,12 +375,14 @@ static void c15_run(uint64_t seed, uint64_t index, bool thorough) {
         return;
     }
     // ---- bulk runs: enumerate templates x sizes x syntaxes over the indices right after the stack grid, then sample
-    size_t bgrid = (size_t)NBULK * 3 * 4;
+    size_t bgrid = (size_t)NBULK * 3 * 4 * 2;
     if(index >= grid && (index < grid + bgrid || index % 16 == 2)) {
         size_t bi = index < grid + bgrid ? (size_t)(index - grid) : (size_t)r.below(bgrid);
         static const Syntax bsy[] = {SY_DER, SY_OER, SY_UPER, SY_XER};
+        bool small_chunks = (bi & 1) != 0; bi >>= 1;
         const Bulk &b = BULKS[bi / 12]; size_t k = BULK_SIZES[(bi / 4) % 3]; Syntax sy = bsy[bi % 4];
-        size_t chunk = index < grid + bgrid ? 16384 : (size_t)(1 + rs.below(65536));
+        if(small_chunks && k > 140000) k = 140000;            // a slow peer: ~1 KB per delivery (quadratic re-reading shows here)
+        size_t chunk = index < grid + bgrid ? (small_chunks ? 1024 : 16384) : (size_t)(1 + rs.below(65536));
         Plan head; head.set("property", "C15"); head.set("program", SIM_PROGRAM); head.set("mode", "bulk"); head.set("template", b.name);
         head.set("size", L((long)k)); head.set("syntax", syntax_name(sy)); head.set("chunk", L((long)chunk)); head.set("budget", "A=" + L(HEAP_A_BULK) + " B=" + L(HEAP_B));
         status_head(head.head_str()); status_ops("op deliver rest\n");
@@ -450,7 +443,8 @@ static ReplayResult c15_replay(const Plan &p) {
         for(auto *x : g_valid) if(p.get("template") == x->name) t = x;
         if(!t) { rr.skipped = true; rr.detail = "template not valid for this program"; return rr; }
         std::string lim = p.get("limit");
-        Verdict v = do_stack(*t, (size_t)p.getl("depth", 10), lim == "default" ? -1 : strtol(lim.c_str(), 0, 10), (size_t)p.getl("chunk", 0), nullptr, nullptr);
+        Verdict v = do_stack(*t, (size_t)p.getl("depth", 10), lim == "default" ? -1 : strtol(lim.c_str(), 0, 10), (size_t)p.getl("chunk", 0), nullptr, nullptr,
+                             p.get("ctx") == "static" ? 1 : p.get("ctx") == "heap" ? 2 : 0);
         rr.violated = v.violated; if(v.violated) { rr.sig = mk_sig(v); rr.detail = v.detail; }
         return rr;
     }
